@@ -16,7 +16,8 @@ structure SlotInv (P : WP → Prop) : Prop where
   replace : ∀ p e a, P p → P (p.replaceWorker e a).1
   draining : ∀ (p : WP) (b : Bool), P p → P { p with draining := b }
   disc : ∀ (p : WP) (d : Option (Nat × Mode)), P p → P { p with disc := d }
-  fresh : ∀ (wid aid : Nat) (d : Option (Nat × Mode)), P { wid := wid, actor := aid, disc := d }
+  handler : ∀ (p : WP) (h : Option Nat), P p → P { p with handler := h }
+  fresh : ∀ (wid aid : Nat) (d : Option (Nat × Mode)) (h : Option Nat), P { wid := wid, actor := aid, disc := d, handler := h }
 
 def PoolAll (P : WP → Prop) (w : W) : Prop := ∀ p ∈ w.pool, P p
 
@@ -142,13 +143,13 @@ theorem slot_growOne (s : SlotInv P) (w : W) (wid : Nat) (h : PoolAll P w) : Poo
     · exact h1.of_pool (availChange_frame _ _ _).pool
     · exact h1
   · dsimp only
-    refine PoolAll.of_pool (w := { w with pool := w.pool ++ [({ wid := wid, actor := w.nextAid, disc := w.workerDiscard w.disc } : WP)] }) ?_
+    refine PoolAll.of_pool (w := { w with pool := w.pool ++ [({ wid := wid, actor := w.nextAid, disc := w.workerDiscard w.disc, handler := w.handler } : WP)] }) ?_
       (availChange_frame _ _ _).pool
     intro x hx
     rcases List.mem_append.mp hx with hm | hm
     · exact h x hm
     · simp only [List.mem_singleton] at hm; subst hm
-      exact s.fresh _ _ _
+      exact s.fresh _ _ _ _
 
 theorem slot_foldl {f : W → Nat → W} (hf : ∀ w k, PoolAll P w → PoolAll P (f w k)) (l : List Nat) (w : W)
     (h : PoolAll P w) : PoolAll P (l.foldl f w) := by
@@ -308,6 +309,10 @@ theorem slot_handleMsg (s : SlotInv P) (w : W) (m : FMsg) (h : PoolAll P w) : Po
   | finished who key => exact slot_workerFinishedJob s w who key h
   | adjust n => exact slot_resizePool s w n h
   | updateSettings d n => exact slot_updateSettings s w d n h
+  | setHandler hd =>
+    intro x hx
+    obtain ⟨y, hy, rfl⟩ := List.mem_map.mp hx
+    exact s.handler y _ (h y hy)
   | drainRequests => exact h.of_pool rfl
   | calculate =>
     show PoolAll P (if w.cfg.hasCC && w.armed then { w with armed := false, blocked := true } else w.calcRest)
@@ -425,6 +430,7 @@ theorem slot_applyOp (s : SlotInv P) (w : W) (op : Op) (h : PoolAll P w) : PoolA
       | none => exact h.of_pool rfl
       | some n => exact h.of_pool rfl
   | drain => exact slot_send _ _ (h.of_pool rfl)
+  | setHandler hd => exact slot_send _ _ (h.of_pool rfl)
   | advance => exact h
   | block => exact h.of_pool rfl
   | release n =>
